@@ -14,7 +14,9 @@ REF_OK = ("{r} is not None and alive({r}) and {r}.token is not None and alive({r
           "and {r}.span_end is not None and {r}.full_span_start is not None and {r}.full_span_end is not None "
           "and 0 <= {r}.full_span_start and {r}.full_span_start <= {r}.span_start and {r}.span_start <= {r}.span_end "
           "and {r}.span_end <= {r}.full_span_end and {r}.full_span_end <= len(plain_text) "
-          "and {r}.token.start == {r}.span_start and {r}.token.end == {r}.span_end")
+          "and {r}.token.start == {r}.span_start and {r}.token.end == {r}.span_end "
+          # C02 for a reference citation: class invariant and SPANS (the token text is the text at the span)
+          "and cit_wf({r}) and SPANS({r}, plain_text)")
 
 contract("find.extract_pincited_reference_citations",
     types={"citation": "obj<FullCaseCitation>", "plain_text": "str"}, returns="seq[obj<ReferenceCitation>]", noraise=True, prop="C19",
@@ -46,6 +48,7 @@ ROUNDTRIP = (f"implies({P2M} is not None and {M2P} is not None and document.mark
              "forall(lambda p, q: implies(0 <= p and p <= len(document.plain_text) and upd_val(document.plain_to_markup, p, 1) <= q and q <= len(document.markup_text), "
              "upd_val(document.markup_to_plain, q, 0) >= p)))")
 
+shared["refs"] = {"DOC_WF": DOC_WF, "ROUNDTRIP": ROUNDTRIP}
 MREF_PARTS = {
     "shape": "{r} is not None and alive({r}) and {r}.token is not None and alive({r}.token) "
              "and {r}.span_start is not None and {r}.span_end is not None and {r}.full_span_start is not None and {r}.full_span_end is not None "
@@ -56,6 +59,8 @@ MREF_PARTS = {
     # the four offsets are ordered (monotone translation, lemma update_monotone_*) and the token text is the text at the span
     "ordered": "{r}.full_span_start <= {r}.span_start and {r}.span_start <= {r}.span_end and {r}.span_end <= {r}.full_span_end "
                "and {r}.token.data == document.plain_text[{r}.span_start:{r}.span_end]",
+    # C02 for a reference citation: class invariant and SPANS
+    "spans": "cit_wf({r}) and SPANS({r}, document.plain_text)",
     # derived from a full case citation that starts at or before it
     "after_full": "0 <= ghost.src[{j}] and ghost.src[{j}] < len(citations) and isinstance(citations[ghost.src[{j}]], FullCaseCitation) "
                   "and {r}.span_start >= citations[ghost.src[{j}]].span()[0] and {r}.full_span_start >= citations[ghost.src[{j}]].span()[0]",
